@@ -171,7 +171,7 @@ func traitRemove(has []*traits.Trait, remove ...trait.Name) []*traits.Trait {
 		insertIndex := sort.Search(len(has), func(i int) bool {
 			return has[i].Name >= ts
 		})
-		if insertIndex == len(has) {
+		if insertIndex == len(has) || has[insertIndex].Name != ts {
 			continue // t isn't in has, nothing to do this iteration
 		}
 		copy(has[insertIndex:], has[insertIndex+1:])
